@@ -199,6 +199,20 @@ def cases(tier, rng):
         path = random_path(rng, tree) if rng.random() < 0.97 else None
         root = rng.choice([None, "", "", "/root", "/root", "/r/s", "root", "/\xe9", "/api"])
         yield "random-tree", mount_case(tree, root, path)
+    # (d') history: the same application objects have served other requests before (any order of the paths of the
+    # exhaustive domain): dispatch must not depend on it
+    hp = [p for p in PATHS if p is not None]
+    for n in range(2, 4):
+        for combo in itertools.product(PREFIXES, repeat=n):
+            tree = [[p, None] for p in combo]
+            for path in hp:
+                for k in range(2 if quick else 6):
+                    pre = [rng.choice(hp) for _ in range(rng.randrange(1, 4))]
+                    yield "history", mount_case(tree, "", path) + [pre]
+    for tree in two_level_trees():
+        for path in p2:
+            if rng.random() < (0.3 if quick else 1.0):
+                yield "history", mount_case(tree, "", path) + [[rng.choice(p2) for _ in range(rng.randrange(1, 4))]]
     # (e) malformed: prefixes the constructor refuses, lifespan scopes
     bad = ["api", "/api/", "/", " /api", "a/", "//"]
     for b in bad:
@@ -230,6 +244,12 @@ def cases(tier, rng):
                 headers.append([name, rng.choice(HOST_VALUES[1:])])
             wh = rng.choice(HOST_VALUES)
         yield "hosts-random", hosts_case(pats, wh, headers, 1 if rng.random() < 0.02 else 0)
+    # hosts with a history
+    hv = [h for h in HOST_VALUES if h is not None]
+    for combo in itertools.product(HOST_PATTERNS, repeat=2):
+        for h in hv:
+            if rng.random() < (0.25 if quick else 1.0):
+                yield "hosts-history", hosts_case(combo, h, [["host", h]]) + [[rng.choice(hv) for _ in range(rng.randrange(1, 4))]]
 
 
 def search_cases(tier, rng, mism):
@@ -344,7 +364,8 @@ def observe_mount(res, seen, before, after, kroot, kpath):
 def impl_mount(case):
     from baize.wsgi.routing import Subpaths as WSubpaths
     from baize.asgi.routing import Subpaths as ASubpaths
-    _, tree, ro, pa, lifespan = case
+    _, tree, ro, pa, lifespan = case[:5]
+    prelude = case[5] if len(case) > 5 else []     # paths the SAME application objects serve first (results discarded)
     root, path = unopt(ro), unopt(pa)
     out = []
     # ---- WSGI
@@ -369,6 +390,15 @@ def impl_mount(case):
         if app is None and app_a is None:
             return [["exc", "AssertionError"]]
         return [["weird", "only one interface refuses the table"]]
+    for pp in prelude:       # the answer to a request must not depend on what the application was asked before
+        e0 = base_environ()
+        e0["SCRIPT_NAME"], e0["PATH_INFO"] = "", pp
+        call_wsgi(app, e0)
+        s0 = base_scope(0)
+        s0["root_path"], s0["path"], s0["raw_path"] = "", pp, pp.encode("utf-8")
+        call_asgi(app_a, s0)
+    del seen[:]
+    del seen_a[:]
     out.append(observe_mount(call_wsgi(app, environ), seen, before, environ, "SCRIPT_NAME", "PATH_INFO"))
     scope = base_scope(lifespan)
     if root is not None:
@@ -400,7 +430,8 @@ def observe_hosts(res, seen, before, after):
 def impl_hosts(case):
     from baize.wsgi.routing import Hosts as WHosts
     from baize.asgi.routing import Hosts as AHosts
-    _, patterns, wh, headers, lifespan, _rows = case
+    _, patterns, wh, headers, lifespan, _rows = case[:6]
+    prelude = case[6] if len(case) > 6 else []     # Host values the same application objects are asked first
     out = []
     seen = []
     app = WHosts(*[(p, wsgi_leaf(i, seen)) for i, p in enumerate(patterns)])
@@ -410,9 +441,18 @@ def impl_hosts(case):
     if wh:
         environ["HTTP_HOST"] = wh[0]
     before = dict(environ)
-    out.append(observe_hosts(call_wsgi(app, environ), seen, before, environ))
     seen_a = []
     app_a = AHosts(*[(p, asgi_leaf(i, seen_a)) for i, p in enumerate(patterns)])
+    for h in prelude:
+        e0 = base_environ()
+        e0["SCRIPT_NAME"], e0["PATH_INFO"], e0["HTTP_HOST"] = "", "/", h
+        call_wsgi(app, e0)
+        s0 = base_scope(0)
+        s0["path"], s0["root_path"], s0["headers"] = "/", "", [(b"host", h.encode("latin-1"))]
+        call_asgi(app_a, s0)
+    del seen[:]
+    del seen_a[:]
+    out.append(observe_hosts(call_wsgi(app, environ), seen, before, environ))
     scope = base_scope(lifespan)
     if not lifespan:
         scope["path"] = "/"
@@ -421,6 +461,13 @@ def impl_hosts(case):
     before_a = dict(scope)
     out.append(observe_hosts(call_asgi(app_a, scope), seen_a, before_a, scope))
     return out
+
+
+def ENCODE(case):
+    # the requests an application object served before are not the model's business: dispatch is a function of the table and
+    # the request (theorems mount_first, hosts_first)
+    n = 5 if case[0] == "mount" else 6
+    return core.enc_line(case[:n])
 
 
 def impl(case):
@@ -549,7 +596,7 @@ def oracle_mount_one(name, tree, root, path, lifespan, o):
 
 
 def oracle_mount(case, obs):
-    _, tree, ro, pa, lifespan = case
+    _, tree, ro, pa, lifespan = case[:5]
     root, path = unopt(ro), unopt(pa)
     if obs and obs[0] == "driver-exception":
         return ("driver-" + str(obs[1]), str(obs[2]))
@@ -568,7 +615,7 @@ def oracle_mount(case, obs):
 
 
 def oracle_hosts(case, obs):
-    _, patterns, wh, headers, lifespan, rows = case
+    _, patterns, wh, headers, lifespan, rows = case[:6]
     if obs and obs[0] == "driver-exception":
         return ("driver-" + str(obs[1]), str(obs[2]))
     for t, row in rows:
@@ -662,22 +709,30 @@ def renumber(tree):
 
 def shrink(case):
     if case[0] == "mount":
-        _, tree, ro, pa, lifespan = case
+        _, tree, ro, pa, lifespan = case[:5]
+        pre = [case[5]] if len(case) > 5 and case[5] else []
+        if pre:
+            for i in range(len(pre[0])):
+                yield ["mount", tree, ro, pa, lifespan, pre[0][:i] + pre[0][i + 1:]]
         for t in shrink_tree(tree):
-            yield ["mount", renumber(t), ro, pa, lifespan]
+            yield ["mount", renumber(t), ro, pa, lifespan] + pre
         if ro and ro[0]:
-            yield ["mount", tree, [""], pa, lifespan]
+            yield ["mount", tree, [""], pa, lifespan] + pre
         if pa:
             p = pa[0]
             for i in range(len(p)):
-                yield ["mount", tree, ro, [p[:i] + p[i + 1:]], lifespan]
+                yield ["mount", tree, ro, [p[:i] + p[i + 1:]], lifespan] + pre
         return
     if case[0] == "hosts":
-        _, patterns, wh, headers, lifespan, _rows = case
+        _, patterns, wh, headers, lifespan, _rows = case[:6]
+        pre = [case[6]] if len(case) > 6 and case[6] else []
+        if pre:
+            for i in range(len(pre[0])):
+                yield case[:6] + [pre[0][:i] + pre[0][i + 1:]]
         for i in range(len(patterns)):
-            yield hosts_case(patterns[:i] + patterns[i + 1:], unopt(wh), headers, lifespan)
+            yield hosts_case(patterns[:i] + patterns[i + 1:], unopt(wh), headers, lifespan) + pre
         for i in range(len(headers)):
-            yield hosts_case(patterns, unopt(wh), headers[:i] + headers[i + 1:], lifespan)
+            yield hosts_case(patterns, unopt(wh), headers[:i] + headers[i + 1:], lifespan) + pre
         if wh:
             h = wh[0]
             for i in range(len(h)):
